@@ -6,7 +6,7 @@ Model: `Chewing.Model.Editor` (validated per step against the real editor, harne
 definitions of `Proofs/EditorPure.lean`.  All theorems hold for EVERY environment `env`.
 
 **1. Queries are pure.**  In a functional model a getter is a function `Editor → value`: it cannot
-change the editor.  `insert_getters`, `getter_repeat`, `queries_block` are therefore true by
+change the editor.  `query_pure`, `insert_getters`, `getter_repeat`, `queries_block` are therefore true by
 construction (proved by induction over the history, nothing deep).  The substance is the
 correspondence: that the REAL getters behave like functions of the state — checked on the real editor
 by `oracle_c17.rs` (every getter twice after every operation: equal answers, snapshot (hook H1) and
@@ -54,6 +54,16 @@ variable {D L : Type} (env : Env D L)
 theorem query_keeps_state (e : Editor D L) (q : Query) :
     e.stepQ env (.query q) = .ok (e, .ans q (e.query env q)) := rfl
 
+/-- **query_pure**: for EVERY editor value (reachable or not) and every getter: the call leaves the state
+    unchanged, a repetition returns an equal value, and whatever operation follows behaves as if the
+    getter had not been called -/
+theorem query_pure (e : Editor D L) (q : Query) (o : Op L) :
+    (∃ v, e.stepQ env (.query q) = .ok (e, .ans q v) ∧ e.runQ env [.query q, .query q] = .ok (e, [.ans q v, .ans q v])) ∧
+    (e.runQ env [.query q, .op o]).map (fun r => (r.1, Ev.rets r.2)) = (e.runQ env [.op o]).map (fun r => (r.1, Ev.rets r.2)) := by
+  refine ⟨⟨e.query env q, rfl, rfl⟩, ?_⟩
+  simp only [Editor.runQ, Editor.stepQ, Outcome.map_map]
+  cases e.applyR env o <;> rfl
+
 /-- **inserting getters changes nothing**: a history with queries interleaved at arbitrary positions
     ends in the same editor, with the same return values of all operations (and the same panic, if an
     operation panics), as the history without them -/
@@ -80,7 +90,7 @@ theorem insert_getters (l : List (OpQ L)) : ∀ e : Editor D L,
 
 /-- the same, quantified the way the property is worded: whatever mixed history `l` is obtained from
     `ops` by inserting queries -/
-theorem insert_getters' (ops : List (Op L)) (l : List (OpQ L)) (h : OpQ.strip l = ops) (e : Editor D L) :
+theorem insert_getters_of_strip (ops : List (Op L)) (l : List (OpQ L)) (h : OpQ.strip l = ops) (e : Editor D L) :
     (e.runQ env l).map (fun r => (r.1, Ev.rets r.2)) = e.runR env ops := by
   rw [← h]; exact insert_getters env l e
 
